@@ -6,7 +6,7 @@ Three sub-checks share one property function:
 * `hungarian`        Hypothesis-generated matrices decided by permutation enumeration (<= 5040 matchings);
 * `hungarian_large`  8..9 on the longer side, decided by the reference min-cost flow (C09 oracle);
 * `tie_exhaustive`   every matrix over a 3-value palette {-1,0,1} for all shapes <= 3x3 (thorough: also 2x4, 4x2,
-                     2x5, 5x2, 3x4, 4x3 and every 0/1 4x4 matrix), minimize and maximize.
+                     2x5, 5x2, every 0/1 4x4 matrix and every {0,1} / {-1,1} 3x4 and 4x3 matrix), minimize and maximize.
 """
 from __future__ import annotations
 
@@ -129,7 +129,10 @@ def _scopes(tier):
     pal3 = [-1, 0, 1]
     out = [((r, c), pal3) for r in range(1, 4) for c in range(1, 4)]
     if tier == "thorough":
-        out += [((2, 4), pal3), ((4, 2), pal3), ((2, 5), pal3), ((5, 2), pal3), ((3, 4), pal3), ((4, 3), pal3), ((4, 4), [0, 1])]
+        out += [((2, 4), pal3), ((4, 2), pal3), ((2, 5), pal3), ((5, 2), pal3), ((4, 4), [0, 1])]
+        # 3x4 / 4x3 over three values would be 2 x 2 x 531441 cases (measured: 7 of the 10 minutes); two 2-value palettes,
+        # one of them straddling the padding value 0, keep the scope exhaustive and small
+        out += [(sh, pal) for sh in ((3, 4), (4, 3)) for pal in ([0, 1], [-1, 1])]
     return out
 
 
